@@ -195,6 +195,33 @@ def run(ctx):
         raise tlc.MachineryError("vacuous: no rule with a name below the level limit was evaluated")
     ufails = ufails + sfails
     meta["too_deep_names_on_level_limited_scans"] = too_deep
+    # diagrams that name a component which is no module (misspelt name / wrong base module), on architectures that
+    # also violate the rest of the diagram: a lookup error, never the violation's AssertionError
+    dspecs = []
+    for _ in range(60 if ctx.quick else 1000):
+        w = random_world(rng, n_modules=rng.randint(8, 20), n_imports=rng.randint(6, 40))
+        tops = [m for m in w.modules if len(m) == 2]
+        if len(tops) < 3:
+            continue
+        items = []
+        for k in range(4):
+            comps = [m[1] for m in rng.sample(tops, rng.randint(2, min(4, len(tops))))]
+            bad = rng.choice(comps) + "zz"
+            comps2 = comps + [bad]
+            pairs = [(a, b) for a in comps2 for b in comps2 if a != b]
+            deps = rng.sample(pairs, min(len(pairs), rng.randint(1, 4)))
+            if not any(bad in d for d in deps) and rng.random() < 0.5:
+                deps.append((comps[0], bad))
+            qualified = rng.random() < 0.5
+            items.append({"op": "deval", "a": 0, "rid": f"U{k}", "only": rng.random() < 0.5,
+                          "comps": [(["r", c] if qualified else [c]) for c in comps2],
+                          "deps": [((["r", a] if qualified else [a]), (["r", b] if qualified else [b])) for a, b in deps],
+                          "base": [] if qualified else ["r"]})
+        dspecs.append({"driver": "diagram", "world": w.json(), "items": items})
+    depisodes = runner.run_specs(dspecs)
+    dtr = trace.validate(depisodes, "Trace_Diagram.tla", "Trace_Diagram.cfg")
+    ufails = ufails + attach(dtr, dspecs, depisodes)
+    meta["diagrams_with_unknown_component"] = sum(1 for ep in depisodes for e in ep if e["k"] == "deval")
     # entry-point option combinations
     entry = [_entry_events(ctx, rng)]
     etr = trace.validate(entry, "Trace_Builders.tla", "Trace_Builders.cfg", procs=1)
@@ -235,6 +262,10 @@ def replay(ctx, rp):
         tr, episodes, fails = rc.run_and_validate([spec], procs=1)
     elif spec.get("driver") == "scan":
         tr, episodes, fails = sc.run_and_validate([spec], procs=1)
+    elif spec.get("driver") == "diagram":
+        episodes = runner.run_specs([spec], 1)
+        tr = trace.validate(episodes, "Trace_Diagram.tla", "Trace_Diagram.cfg", procs=1)
+        fails = attach(tr, [spec], episodes)
     elif spec.get("driver") == "entry":
         rng = random.Random(0)
         entry = [_entry_events(ctx, rng)]
